@@ -178,9 +178,18 @@ def features(p):
             F.add('shadowing')
         if any(d[0] == 'val' for d in q['locals']):
             F.add('local_val')
+            kinds = [d[0] for d in q['locals']]
+            if 'var' in kinds[kinds.index('val'):]:
+                F.add('local_val_before_local_var')
+        if q['kind'] == 'func' and len(q['formals']) >= 2 and has_self_tail_call(q):
+            F.add('self_tail_call_multi_formal')
         if has_self_call(q):
             F.add('recursion')
     for d in p['globals']:
+        if d[0] in ('var', 'array') and d[1] in xgen.NAME_POOL:
+            F.add('compiler_named_global')
+            if d[1] == 'start':
+                F.add('global_named_start')
         if d[0] == 'val' and d[2][0] in ('bin', 'neg'):
             F.add('val_expression')
         if d[0] == 'array':
@@ -191,6 +200,20 @@ def features(p):
         if not (last[0] == 'stop' or (last[0] in ('call', 'sys') and last[1] in ('exit', 0))):
             F.add('main_returns')
     return F
+
+
+def has_self_tail_call(q):
+    """`return f(..)` in the body of f"""
+    def st(s):
+        t = s[0]
+        if t == 'seq':
+            return any(st(x) for x in s[1])
+        if t == 'if':
+            return st(s[2]) or st(s[3])
+        if t == 'while':
+            return st(s[2])
+        return t == 'return' and s[1][0] == 'call' and s[1][1] == q['name']
+    return st(q['body'])
 
 
 def has_self_call(q):
